@@ -644,6 +644,34 @@ def _search_misc(ctx, work):
             if not ok:
                 ctx.fail(f"unknown-format:{entry}:{kw.get('fmt')}", f"{entry}({kw}): {got}, target {spec!r} -> {state()!r}",
                          {"kind": "unknown-format", "entry": entry, "kw": kw, "fs": spec})
+    # the format deduced from the file name does not support the operation (a format that can only be read; a
+    # single-frame format asked for a trajectory): FileFormatError before anything is touched, as for an explicit fmt
+    for spec in (None, "OLD"):
+        for entry, name in ([("dump_one", n) for n in ("job.log", "conf.gro", "run.out", "mol.crd", "wfn.mwfn", "x.extxyz", "x.com")]
+                            + [("dump_many", n) for n in ("x.fchk", "x.molden", "x.cube", "x.wfn", "x.wfx", "POSCAR.x", "x.mkl", "x.json")]):
+            p2 = os.path.join(work, name)
+            if os.path.exists(p2):
+                os.unlink(p2)
+            if spec is not None:
+                with builtins.open(p2, "w") as fh:
+                    fh.write(spec)
+            try:
+                if entry == "dump_one":
+                    dump_one(base, p2)
+                else:
+                    dump_many(iter([base, base]), p2)
+                got = "no exception"
+            except BaseException as exc:  # noqa: BLE001
+                got = type(exc).__name__
+            now = builtins.open(p2).read() if os.path.exists(p2) else None
+            ok = got == "FileFormatError" and now == spec
+            ctx.count("unsupported-by-name", [entry, name, spec], "ok" if ok else "bad")
+            if not ok:
+                ctx.fail(f"unsupported-by-name:{entry}:{name.split('.')[-1]}",
+                         f"{entry}(..., {name!r}) (format from the name, operation not supported): {got}, target {spec!r} -> {now!r}",
+                         {"kind": "unknown-format", "entry": entry, "kw": {}, "fs": spec, "name": name})
+            if os.path.exists(p2):
+                os.unlink(p2)
     # arbitrary exception classes out of prepare_dump / a property getter of a real format (pre-flight funnel)
     import iodata.formats.molden as molden_mod
     import iodata.formats.xyz as xyz_mod
